@@ -75,7 +75,17 @@ func keyMatch(k, want string) bool {
 }
 
 // callsIn lists the call instructions (call, go, defer) of fn to one of keys.
+// callsIn: the calls of fn to the keyed callees — also those in helpers extracted from fn since the pinned commit
+// (see findInstrs); callsInOnly: fn's own instructions only (for loops that visit every function anyway).
 func callsIn(fn *ssa.Function, keys ...string) []ssa.CallInstruction {
+	var out []ssa.CallInstruction
+	for _, in := range findInstrs(fn, func(in ssa.Instruction) bool { return isCallTo(in, keys...) }) {
+		out = append(out, in.(ssa.CallInstruction))
+	}
+	return out
+}
+
+func callsInOnly(fn *ssa.Function, keys ...string) []ssa.CallInstruction {
 	var out []ssa.CallInstruction
 	for _, b := range fn.Blocks {
 		for _, in := range b.Instrs {
@@ -126,6 +136,12 @@ func stripD(v ssa.Value, depth int) ssa.Value {
 		case *ssa.Convert:
 			v = x.X
 		case *ssa.Phi:
+			// on the path the search is on, the phi stands for the operand it received (see cut.go)
+			if op, ok := valueOverride[x]; ok && depth < 8 {
+				depth++
+				v = op
+				continue
+			}
 			// a phi all of whose operands are the same value
 			var u ssa.Value
 			same := true
@@ -151,6 +167,39 @@ func stripD(v ssa.Value, depth int) ssa.Value {
 					v = s
 					continue
 				}
+				// a variable captured by reference and assigned once in the enclosing function: its value
+				if fv, isFV := x.X.(*ssa.FreeVar); isFV && depth < 6 {
+					if s := capturedValue(fv); s != nil {
+						depth++
+						v = s
+						continue
+					}
+				}
+			}
+			return v
+		case *ssa.FreeVar:
+			if s := capturedValue(x); s != nil && depth < 6 {
+				if _, isAlloc := s.(*ssa.Alloc); !isAlloc && !isPointerToCell(x) {
+					depth++
+					v = s
+					continue
+				}
+			}
+			return v
+		case *ssa.Parameter:
+			// inside a helper the path search walked into, a parameter is the caller's argument
+			if a, ok := frameArgs[x]; ok && depth < 6 {
+				depth++
+				v = a
+				continue
+			}
+			// outside a path search: relative to the function being scanned (see scanRoot)
+			if scanRoot != nil && depth < 6 && x.Parent() != scanRoot && inlinable(x.Parent()) {
+				if a := argOfParam(scanRoot, x); a != nil {
+					depth++
+					v = a
+					continue
+				}
 			}
 			return v
 		default:
@@ -158,6 +207,19 @@ func stripD(v ssa.Value, depth int) ssa.Value {
 		}
 	}
 }
+
+// frameArgs: while Cut.Run evaluates predicates at a point inside a helper it walked into (a function extracted
+// since the pinned commit), the helper's parameters stand for the arguments of the call (set and restored by Run).
+var frameArgs = map[*ssa.Parameter]ssa.Value{}
+
+// scanRoot: the pinned function whose code (with the helpers extracted from it) a rule is currently scanning: set
+// by findInstrs / blocksDeep / Cut.Run. A parameter of such a helper that is met outside a path search stands for
+// the argument of scanRoot's unique call of the helper.
+var scanRoot *ssa.Function
+
+// valueOverride: while an edge predicate is evaluated at `if x != nil` with x a phi whose operand on the current
+// path is known, strip() resolves x to that operand (set and cleared by Cut.Run).
+var valueOverride = map[*ssa.Phi]ssa.Value{}
 
 // loadedValue resolves a load of a local cell (Alloc) to the value most
 // recently stored into it: the last store before the load in the same block,
@@ -352,6 +414,17 @@ func derivesFrom(v ssa.Value, src func(ssa.Value) bool, passThrough ...string) b
 				}
 			}
 			// a straight-line helper of the module computing the value: continue in its body
+			if h := x.Call.StaticCallee(); inlinable(h) && len(bind) < 16 && len(h.Params) == len(x.Call.Args) && h.Signature.Results().Len() == 1 {
+				for i, p := range h.Params {
+					bind[p] = x.Call.Args[i]
+				}
+				for _, ret := range returnsOf(h) {
+					if len(ret.Results) == 1 && walk(ret.Results[0]) {
+						return true
+					}
+				}
+				return false
+			}
 			if h := x.Call.StaticCallee(); h != nil && h.Pkg != nil && strings.HasPrefix(h.Pkg.Pkg.Path()+"/", Mod) && straightLine(h) && len(bind) < 16 {
 				rets := returnsOf(h)
 				if len(rets) == 1 && len(rets[0].Results) == 1 && len(h.Params) == len(x.Call.Args) {
@@ -1018,6 +1091,8 @@ func isParamCell(c *Ctx, cell ssa.Value, name string) bool {
 func phiLeaves(v ssa.Value) []ssa.Value {
 	var out []ssa.Value
 	seen := map[ssa.Value]bool{}
+	bound := map[*ssa.Parameter]ssa.Value{}
+	depth := 0
 	var walk func(ssa.Value)
 	walk = func(v ssa.Value) {
 		if seen[v] {
@@ -1029,6 +1104,29 @@ func phiLeaves(v ssa.Value) []ssa.Value {
 				walk(e)
 			}
 			return
+		}
+		// a value computed by a helper extracted since the pinned commit: what the helper may return, its
+		// parameters standing for the call's arguments
+		if call, ok := v.(*ssa.Call); ok && depth < 2 {
+			if g := call.Call.StaticCallee(); inlinable(g) && g.Signature.Results().Len() == 1 && len(g.Params) == len(call.Call.Args) {
+				for i, p := range g.Params {
+					bound[p] = call.Call.Args[i]
+				}
+				depth++
+				for _, ret := range returnsOf(g) {
+					if len(ret.Results) == 1 {
+						walk(ret.Results[0])
+					}
+				}
+				depth--
+				return
+			}
+		}
+		if p, ok := v.(*ssa.Parameter); ok {
+			if a, isBound := bound[p]; isBound {
+				walk(a)
+				return
+			}
 		}
 		out = append(out, v)
 	}
@@ -1336,4 +1434,91 @@ func nonEmptyTest(v ssa.Value, isS func(ssa.Value) bool) (is bool, sense bool) {
 		return false, false
 	}
 	return true, o
+}
+
+// capturedValue: what a closure's free variable stands for in the enclosing function. For a variable captured by
+// reference (the free variable is the address of a cell) the value stored into the cell, provided it is stored
+// exactly once and never written inside a closure; for a value captured directly, the bound value. nil otherwise.
+var capturedMemo = map[*ssa.FreeVar]ssa.Value{}
+
+func capturedValue(fv *ssa.FreeVar) ssa.Value {
+	if v, ok := capturedMemo[fv]; ok {
+		return v
+	}
+	capturedMemo[fv] = nil
+	fn := fv.Parent()
+	parent := fn.Parent()
+	if parent == nil {
+		return nil
+	}
+	idx := -1
+	for i, q := range fn.FreeVars {
+		if q == fv {
+			idx = i
+		}
+	}
+	var bound ssa.Value
+	n := 0
+	for _, b := range parent.Blocks {
+		for _, in := range b.Instrs {
+			if mc, ok := in.(*ssa.MakeClosure); ok && mc.Fn == ssa.Value(fn) && idx >= 0 && idx < len(mc.Bindings) {
+				bound = mc.Bindings[idx]
+				n++
+			}
+		}
+	}
+	if n != 1 || bound == nil {
+		return nil
+	}
+	al, isCell := bound.(*ssa.Alloc)
+	if !isCell {
+		if pfv, isFV := bound.(*ssa.FreeVar); isFV {
+			// captured through two levels
+			r := capturedValue(pfv)
+			capturedMemo[fv] = r
+			return r
+		}
+		capturedMemo[fv] = bound
+		return bound
+	}
+	if !isPointerToCell(fv) {
+		return nil
+	}
+	var stored ssa.Value
+	stores := 0
+	for _, r := range *al.Referrers() {
+		switch x := r.(type) {
+		case *ssa.Store:
+			if x.Addr == ssa.Value(al) {
+				stored = x.Val
+				stores++
+			}
+		}
+	}
+	if stores != 1 || capturedAndWritten(al) {
+		return nil
+	}
+	capturedMemo[fv] = stored
+	return stored
+}
+
+// isPointerToCell: the free variable is the address of a captured variable (by-reference capture).
+func isPointerToCell(fv *ssa.FreeVar) bool {
+	refs := fv.Referrers()
+	if refs == nil {
+		return false
+	}
+	for _, r := range *refs {
+		switch x := r.(type) {
+		case *ssa.UnOp:
+			if x.Op == token.MUL && x.X == ssa.Value(fv) {
+				return true
+			}
+		case *ssa.Store:
+			if x.Addr == ssa.Value(fv) {
+				return true
+			}
+		}
+	}
+	return false
 }
